@@ -22,22 +22,23 @@ func fieldIs(p *Program, fv *types.Var, pkg, owner, name string) bool {
 
 // relLiteral is one Relationship value built by the library.
 type relLiteral struct {
-	Fn          *ssa.Function
-	Base        ssa.Value // the object (alloc or in-place address) the fields are stored to
-	ID          *ssa.Store
-	Type        string // constant type, "" if not constant
-	Target      ssa.Value
-	TargetSym   symString // specialised copy: the target read from a field of a package-level descriptor, as a constant
-	TargetSt    *ssa.Store
-	TypeVal     ssa.Value           // the value stored as the type (constant or not)
-	Home        *ssa.Function       // the function that contains the stores (== Fn unless specialised)
-	Via         ssa.CallInstruction // specialised copy: the call in Fn to Home for which Type was resolved
-	IDInFn      ssa.Value           // specialised copy: the value in Fn that equals the id (Home's result or the argument handed in)
-	IDArg       ssa.Value           // specialised copy: the id is computed by the caller and handed to Home
-	Specialised bool                // generic literal whose id comes in as a parameter: its per-call-site copies are checked instead
-	List        string              // field of Document the relationship is appended to ("" = fresh literal list)
-	Appended    bool                // appended to an existing list (vs. element of a fresh slice literal)
-	Pos         token.Pos
+	Fn            *ssa.Function
+	Base          ssa.Value // the object (alloc or in-place address) the fields are stored to
+	ID            *ssa.Store
+	Type          string // constant type, "" if not constant
+	Target        ssa.Value
+	TargetSym     symString // specialised copy: the target read from a field of a package-level descriptor, as a constant
+	TargetSt      *ssa.Store
+	TypeVal       ssa.Value           // the value stored as the type (constant or not)
+	Home          *ssa.Function       // the function that contains the stores (== Fn unless specialised)
+	Via           ssa.CallInstruction // specialised copy: the call in Fn to Home for which Type was resolved
+	IDInFn        ssa.Value           // specialised copy: the value in Fn that equals the id (Home's result or the argument handed in)
+	IDArg         ssa.Value           // specialised copy: the id is computed by the caller and handed to Home
+	Specialised   bool                // generic literal whose id comes in as a parameter: its per-call-site copies are checked instead
+	TargetCarried bool                // generic literal whose target is built from fields of a struct parameter: the copies carry the resolved target
+	List          string              // field of Document the relationship is appended to ("" = fresh literal list)
+	Appended      bool                // appended to an existing list (vs. element of a fresh slice literal)
+	Pos           token.Pos
 }
 
 func collectRelLiterals(p *Program) []*relLiteral {
@@ -159,7 +160,30 @@ func specialiseRelLiterals(p *Program, lits []*relLiteral) []*relLiteral {
 				tgtDescPar, tgtField = par, fi
 			}
 		}
-		if typePar == nil && idPar == nil && tgtPar == nil && tgtDescPar == nil {
+		// id and target read from fields of a struct-valued parameter (a value receiver that carries
+		// what an allocation step returned: func (s imageSlot) relationship() Relationship)
+		var idFldPar *ssa.Parameter
+		idFld := -1
+		if idPar == nil {
+			if par, fi := paramFieldOf(rl.ID.Val); par != nil && fi >= 0 && par.Parent() == h {
+				if _, isStruct := derefType(par.Type()).Underlying().(*types.Struct); isStruct {
+					idFldPar, idFld = par, fi
+				}
+			}
+		}
+		var tgtInner symString
+		tgtCarried := false
+		if tgtPar == nil && tgtDescPar == nil && rl.Target != nil {
+			tgtInner = symOf(rl.Target)
+			for _, part := range tgtInner {
+				if part.Sym != nil {
+					if prm, fi := paramFieldRead(part.Sym); prm != nil && fi >= 0 && prm.Parent() == h {
+						tgtCarried = true
+					}
+				}
+			}
+		}
+		if typePar == nil && idPar == nil && tgtPar == nil && tgtDescPar == nil && idFldPar == nil && !tgtCarried {
 			continue
 		}
 		if rl.Type == "" && typePar == nil {
@@ -221,11 +245,75 @@ func specialiseRelLiterals(p *Program, lits []*relLiteral) []*relLiteral {
 						}
 					}
 				}
+				// the helper RETURNS the relationship: where the caller appends it is where it goes
+				if cv, ok := c.(*ssa.Call); ok && !cp.Appended && typeIs(cv.Type(), pkgDoc, "Relationship") {
+					for use := range forwardFlow(cv, nil) {
+						ac, ok := use.(*ssa.Call)
+						if !ok {
+							continue
+						}
+						if bi, ok := ac.Call.Value.(*ssa.Builtin); !ok || bi.Name() != "append" {
+							continue
+						}
+						if chain, _ := addrChain(ac.Call.Args[0]); len(chain) > 0 {
+							cp.Appended = true
+							cp.List = listName(chain)
+						} else if gc, ok := ac.Call.Args[0].(*ssa.UnOp); ok {
+							// rels := d.ensureDocumentRelationships(); rels.Relationships = append(rels.Relationships, …)
+							if chain, _, ok := getterChainOfLoad(gc); ok && len(chain) > 0 {
+								cp.Appended = true
+								cp.List = listName(chain)
+							}
+						}
+					}
+				}
+				if idFldPar != nil {
+					if pi := paramIndex(h, idFldPar); pi < len(args) {
+						if rep, _ := structFieldOf(args[pi], idFld, 0); rep != nil {
+							// the value the allocation step put into that field
+							cp.IDInFn, cp.IDArg = rep, rep
+						} else {
+							return
+						}
+					}
+				}
+				if tgtCarried {
+					var ts symString
+					okT := true
+					for _, part := range tgtInner {
+						if part.Sym == nil {
+							ts = append(ts, part)
+							continue
+						}
+						prm, fi := paramFieldRead(part.Sym)
+						if prm == nil || prm.Parent() != h {
+							ts = append(ts, part)
+							continue
+						}
+						pi := paramIndex(h, prm)
+						if pi < 0 || pi >= len(args) {
+							okT = false
+							break
+						}
+						rep, call2 := structFieldOf(args[pi], fi, 0)
+						if rep == nil {
+							okT = false
+							break
+						}
+						ts = append(ts, substParams(symOfD(rep, 1), call2, 1)...)
+					}
+					if okT {
+						cp.TargetSym = ts.norm()
+					}
+				}
 				out = append(out, &cp)
 			})
 		}
-		if len(out) > 0 && idPar != nil {
+		if len(out) > 0 && (idPar != nil || idFldPar != nil) {
 			rl.Specialised = true
+		}
+		if len(out) > 0 && tgtCarried {
+			rl.TargetCarried = true
 		}
 	}
 	return out
@@ -737,7 +825,7 @@ func relAttach(r *Run, kinds map[string]bool, min int) {
 		r.Check("rel-attach-owner", key, rl.Pos, listOK,
 			fmt.Sprintf("a %s relationship belongs to %s (part directory %q) but %s attaches it to %q", kind, own.list, own.base, shortName(rl.Fn), list))
 		// target resolves to a stored part
-		if rl.Target == nil {
+		if rl.Target == nil || (rl.Via == nil && rl.TargetCarried) {
 			continue
 		}
 		tsym := symOf(rl.Target)
@@ -955,6 +1043,13 @@ func refFlow(r *Run, wantHF, wantImg bool) {
 			for _, rl := range byFn[fn] {
 				if relKind(rl.Type) == "image" && sameCarried(rl.ID.Val, st.Val) {
 					okFlow = true
+				}
+				// the relationship is built by a method of the value that carries the id: both read the
+				// same field of the same allocation result
+				if relKind(rl.Type) == "image" && rl.Via != nil && rl.IDArg != nil {
+					if rb, _ := structFieldRep(st.Val); rb != nil && rb == rl.IDArg {
+						okFlow = true
+					}
 				}
 			}
 			r.Check("ref-flow", shortName(fn)+":ImageInfo.RelationID", st.Pos(), okFlow,
@@ -1869,4 +1964,26 @@ func mustReadCounter(p *Program, sl *slicer, v ssa.Value, ctx *mrcCtx, depth int
 		return true
 	}
 	return false
+}
+
+// getterChainOfLoad: the access path of a loaded field whose base object came out of a getter
+// (rels := d.ensureDocumentRelationships(); rels.Relationships).
+func getterChainOfLoad(ld *ssa.UnOp) ([]*types.Var, ssa.Value, bool) {
+	if ld.Op != token.MUL {
+		return nil, nil, false
+	}
+	fa, ok := ld.X.(*ssa.FieldAddr)
+	if !ok {
+		return nil, nil, false
+	}
+	fv, base := fieldOfAddr(fa)
+	if fv == nil {
+		return nil, nil, false
+	}
+	if c, ok := stripLoads(base).(*ssa.Call); ok {
+		if ch, root, ok := getterChain(c); ok {
+			return append(append([]*types.Var{}, ch...), fv), root, true
+		}
+	}
+	return nil, nil, false
 }
